@@ -356,3 +356,66 @@ def decl_history(tid, seed, steps):
             else:
                 tr.undeclare('zz_unknown', expect_ok=False)
     return tr
+
+
+# ======================= streaming: stale per-manager memos =======================
+def stream_history(tid, seed, nvars, nfuncs, reorder_between=False):
+    """Stream functions through ONE manager: build f, ask every kind of
+    question about it, release it, collect -- so the next function re-uses
+    the same node numbers.  Any table keyed by node number that outlives a
+    collection (or a reordering, with `reorder_between`) answers for the
+    wrong function.  Pairs (a,b), (c,d) are kept adjacent for preimage."""
+    rng = random.Random(seed)
+    names = ALL_NAMES[:nvars]
+    tr = Trace(tid, names, seed=seed, meta=dict(driver='stream', seed=seed,
+                                                reorder_between=reorder_between))
+    for nm in names:
+        tr.add_var(nm)
+    b = tr.bdd
+    full = 1 << (1 << nvars)
+    for i in range(nfuncs):
+        tt = rng.randrange(1, full - 1)
+        r, exc = tr.build(tt, lambda: build_tt(tr, names, tt), nvars)
+        if exc or not r:
+            continue
+        tt2 = rng.randrange(1, full - 1)
+        g, exc = tr.build(tt2, lambda: build_tt(tr, names, tt2), nvars)
+        if exc or not g:
+            continue
+        for rnd in range(2 if reorder_between else 1):
+            K = rng.sample(names, rng.randint(1, max(1, nvars - 1)))
+            tr.quantify(r, K, False, hold=False)
+            tr.quantify(-r, K, True, hold=False, route='short')
+            vs = rng.sample(names, rng.randint(1, nvars))
+            tr.cofactor(r, {x: rng.random() < 0.5 for x in vs}, hold=False)
+            tr.compose(r, {names[0]: g}, hold=False)
+            tr.rename(r, {names[0]: names[-1], names[-1]: names[0]}, hold=False)
+            tr.support(r)
+            tr.count(r)
+            tr.count(-r, nvars + 1)
+            tr.pick_iter(r, None)
+            tr.pick(r, names)
+            tr.to_expr_rt(r)
+            tr.to_expr_rt(-g)
+            tr.descendants([r, -g])
+            tr.size(r)
+            tr.apply(rng.choice(BIN_OPS), r, g, hold=False)
+            if nvars >= 2:
+                lv = b.vars
+                pairs = [(names[j], names[j + 1]) for j in range(0, nvars - 1, 2)
+                         if abs(lv[names[j]] - lv[names[j + 1]]) == 1]
+                if pairs:
+                    ren = {p: q for p, q in pairs}
+                    tgt, _ = tr.quantify(g, [q for _, q in pairs], False, hold=True)
+                    if tgt:
+                        tr.preimage(r, tgt, ren, [q for _, q in pairs], rnd == 1)
+                        tr.image(r, tgt, {q: p for p, q in ren.items()}, [p for p, _ in pairs], False)
+                        tr.decref(tgt)
+            if reorder_between and rnd == 0 and nvars >= 2:
+                o = list(names)
+                rng.shuffle(o)
+                tr.reorder_to(o)
+        tr.decref(r)
+        tr.decref(g)
+        tr.gc()
+    return tr
